@@ -520,6 +520,26 @@ func (d *cnDriver) step() error {
 					rv = append(rv, fmt.Sprintf("%s:%d", r, ver))
 				}
 				sp.RtVers = strings.Join(rv, ",")
+				if i != 1 && d.rng.Intn(8) == 0 {
+					// the descriptor lists further versions of its first runtime: another version (allowed), the same version again,
+					// or another version twice (a repeated version must be refused wherever it stands in the list)
+					var r0 string
+					var v0 int64
+					fmt.Sscanf(strings.Replace(rv[0], ":", " ", 1), "%s %d", &r0, &v0)
+					switch d.rng.Intn(4) {
+					case 0:
+						sp.RtMore = fmt.Sprintf("%s:%d", r0, v0+1)
+					case 1:
+						sp.RtMore = fmt.Sprintf("%s:%d", r0, v0)
+						sp.Validity = "dupversion"
+					case 2:
+						sp.RtMore = fmt.Sprintf("%s:%d,%s:%d", r0, v0+1, r0, v0+1)
+						sp.Validity = "dupversion"
+					default:
+						sp.RtMore = fmt.Sprintf("%s:%d,%s:%d,%s:%d", r0, v0+1, r0, v0+2, r0, v0+1)
+						sp.Validity = "dupversion"
+					}
+				}
 			}
 			d.pendRts[sp] = rts
 			raw, err := n.buildTx(sp, d.rng)
@@ -634,6 +654,14 @@ func (d *cnDriver) step() error {
 		if d.rng.Intn(3) > 0 {
 			// incoming message queue: small enough to fill up within a scenario (the executor commitments of the scenarios consume nothing)
 			sp.InMsgs = fmt.Sprintf("%d:%d", []int{0, 1, 1, 2, 2, 3}[d.rng.Intn(6)], []int{0, 0, 1, 3}[d.rng.Intn(4)])
+			if d.rng.Intn(6) == 0 {
+				// a queue larger than the roothash application allows (MaxInRuntimeMessages = 32): the descriptor passes every check of
+				// the registry and is refused by the roothash application when it is told about the runtime - nothing may remain
+				sp.InMsgs = fmt.Sprintf("%d:0", []int{33, 100}[d.rng.Intn(2)])
+				if sp.Validity == "ok" {
+					sp.Validity = "badmsglimit"
+				}
+			}
 		}
 		if raw, err := n.buildTx(sp, d.rng); err == nil {
 			nonceBump[e]++
@@ -766,6 +794,11 @@ func (d *cnDriver) step() error {
 		case 0: // somebody else signs the transaction carrying a correctly signed descriptor
 			u := n.users[d.rng.Intn(len(n.users))]
 			sp = &cnTxSpec{Kind: "regnode", Signer: u.name, Node: n.vals[i].name, Amount: epochNow + 2, Nonce: uint64(d.acctField(u.name, "n")) + nonceBump[u.name], Gas: 5000, Validity: "wrongsigner"}
+			if d.rng.Intn(2) == 0 {
+				// ... or one of the node's own keys that is not its identity: the consensus key signs every descriptor of the node
+				ck := n.vals[i].name + ".c"
+				sp.Signer, sp.Nonce, sp.Runtimes = ck, uint64(d.acctField(ck, "n"))+nonceBump[ck], d.nodeRts[n.vals[i].name]
+			}
 		case 1: // descriptor lacks the signature of one of the node's keys
 			v := n.vals[i]
 			sp = &cnTxSpec{Kind: "regnode", Signer: v.name, Node: v.name, Amount: epochNow + 2, Nonce: uint64(d.acctField(v.name, "n")) + nonceBump[v.name], Gas: 5000, Validity: "missingsig"}
